@@ -156,6 +156,19 @@ func (mediaType *MediaType) Validate(ctx context.Context, opts ...ValidationOpti
 		}
 	}
 
+	if encodings := mediaType.Encoding; encodings != nil {
+		names := make([]string, 0, len(encodings))
+		for name := range encodings {
+			names = append(names, name)
+		}
+		sort.Strings(names)
+		for _, k := range names {
+			if err := encodings[k].Validate(ctx); err != nil {
+				return fmt.Errorf("invalid encoding %q: %w", k, err)
+			}
+		}
+	}
+
 	return validateExtensions(ctx, mediaType.Extensions)
 }
 
